@@ -112,6 +112,7 @@ theorem cons_step (s : St) (op : Op) (h : Cons s) : Cons (step s op) := by
       | pend => simp only [doC, deliveredOf, inflight, hp] at hj ⊢; exact hj
     · exact hj
   | exhaust => exact hj
+  | setWaker w => exact hj
 
 theorem reachable_cons (ops : List Op) : Cons (ops.foldl step {}) := by
   suffices h : ∀ s, Cons s → Cons (ops.foldl step s) from h _ cons_init
